@@ -43,6 +43,10 @@ def _col_kind(vals):
     return np._kmax(*[np._kind_of(v) for v in vals])
 
 
+def _narrow_cells(vals):
+    return builtins.any(getattr(v, 'bits', None) is not None for v in vals)
+
+
 def _norm_cell(v):
     if type(v) is float:
         return f64(v)
@@ -108,7 +112,7 @@ class Series:
         elif isinstance(data, np.ndarray):
             if data.ndim != 1:
                 raise ValueError("Data must be 1-dimensional, got ndarray of shape %s instead" % (data.shape,))
-            vals = data._flat_values()
+            vals = data._cells()       # narrow integer cells keep their machine type (they wrap)
         elif isinstance(data, (list, tuple, range)):
             vals = list(data)
         elif data is None:
@@ -268,7 +272,7 @@ class Series:
                 return [o._get_flat(0)] * len(self._vals)
             if o.ndim != 1 or len(o) != len(self._vals):
                 raise ValueError("Lengths must match to compare" if True else "")
-            return o._flat_values()
+            return o._cells()
         if isinstance(o, (list, tuple)):
             if len(o) != len(self._vals):
                 raise ValueError("Lengths must match")
@@ -281,11 +285,21 @@ class Series:
         if isinstance(o, DataFrame):
             return NotImplemented
         ov = self._align(o)
-        if rev:
+        nm = self.name if not isinstance(o, Series) or o.name == self.name else None
+        if _narrow_cells(self._vals) or _narrow_cells(ov):
+            # machine-integer columns: numpy's array arithmetic decides promotion and wrap-around
+            a = self._to_array()
+            b = o if (not isinstance(o, (Series, list, tuple, np.ndarray)) and o is not None) else np.ndarray._from_flat(list(ov), (len(ov),), _col_kind(ov))
+            g = {np._div: lambda x, y: x / y, np._add: lambda x, y: x + y, np._mul: lambda x, y: x * y,
+                 np._bitand: lambda x, y: x & y, np._bitor: lambda x, y: x | y}.get(f, f)
+            res = g(b, a) if rev else g(a, b)
+            if not isinstance(res, np.ndarray):
+                raise ModelGap("Series operation on machine-integer cells")
+            vals = res._cells()
+        elif rev:
             vals = [f(b, a) for a, b in zip(self._vals, ov)]
         else:
             vals = [f(a, b) for a, b in zip(self._vals, ov)]
-        nm = self.name if not isinstance(o, Series) or o.name == self.name else None
         r = Series(vals, list(self._index), nm)
         r._kind_hint = kind or self._kind_hint
         return r
@@ -531,7 +545,7 @@ class DataFrame:
                 elif isinstance(v, np.ndarray):
                     if v.ndim != 1:
                         raise ValueError("Per-column arrays must each be 1-dimensional")
-                    vals = v._flat_values()
+                    vals = v._cells()
                 elif isinstance(v, (list, tuple, range)):
                     vals = list(v)
                 else:
@@ -701,7 +715,7 @@ class DataFrame:
             elif value.ndim != 1:
                 raise ValueError("Cannot set a DataFrame with multiple columns to the single column %s" % key)
             else:
-                vals = value._flat_values()
+                vals = value._cells()
         elif isinstance(value, (list, tuple, range)):
             vals = list(value)
         else:
@@ -1134,6 +1148,35 @@ def concat(objs, axis=0, ignore_index=False, **kw):
     if ignore_index:
         idx = list(range(len(idx)))
     return DataFrame._make(cols, idx)
+
+
+def to_numeric(arg, errors='raise', downcast=None):
+    """only what a numeric Series needs: downcast='unsigned' / 'integer' picks the smallest integer dtype that
+    holds every value (unsigned: only if no value is negative)."""
+    if not isinstance(arg, Series):
+        raise ModelGap("to_numeric of %r" % (type(arg),))
+    k = _col_kind(arg._vals)
+    if downcast is None or not arg._vals or k not in ('i', 'b'):
+        if downcast == 'float' or (downcast is not None and k == 'f'):
+            raise ModelGap("to_numeric downcast of floats")
+        return arg.copy()
+    if k == 'b' or _narrow_cells(arg._vals):
+        raise ModelGap("to_numeric downcast of bool / already narrow series")
+    if downcast == 'unsigned':
+        cands = [(False, 8), (False, 16), (False, 32), (False, 64)]
+    elif downcast in ('integer', 'signed'):
+        cands = [(True, 8), (True, 16), (True, 32)]
+    else:
+        raise ValueError("invalid downcasting method provided")
+    for signed, w in cands:
+        lo = -(1 << (w - 1)) if signed else 0
+        hi = (1 << (w - 1)) - 1 if signed else (1 << w) - 1
+        fits = True
+        for v in arg._vals:
+            fits = np._and(fits, np._and(v >= lo, v <= hi))
+        if symx.truth(fits):
+            return Series([np._narrow_scalar(v, (signed, w)) for v in arg._vals], list(arg._index), arg.name)
+    return arg.copy()
 
 
 def isna(x):
